@@ -46,7 +46,10 @@ type c19Cont struct {
 	valOf   func(raw ref.JVal) int
 }
 
-var c19Keys = []string{"a", "b", "c"}
+// One plain key and two whose JSON spelling differs from their Go spelling (quote,
+// backslash, control character; DEL, a non-ASCII letter, U+2028): the containers treat
+// keys as opaque, the marshalled form must still be JSON.
+var c19Keys = []string{"a", "q\"\\\x01", "\u00e9\x7f\u2028"}
 
 func ruleVal(v int) schema.RuleASTNode {
 	return schema.RuleASTNode{TokenType: "number", Value: fmt.Sprint(v)}
@@ -290,13 +293,13 @@ type c19Op struct {
 func (o c19Op) String() string {
 	switch o.Kind {
 	case "set":
-		return fmt.Sprintf("Set(%s,%d)", c19Keys[o.K], o.V)
+		return fmt.Sprintf("Set(%q,%d)", c19Keys[o.K], o.V)
 	case "add":
-		return fmt.Sprintf("Add(%s)", c19Keys[o.K])
+		return fmt.Sprintf("Add(%q)", c19Keys[o.K])
 	case "update":
-		return fmt.Sprintf("Update(%s)", c19Keys[o.K])
+		return fmt.Sprintf("Update(%q)", c19Keys[o.K])
 	case "delete":
-		return fmt.Sprintf("Delete(%s)", c19Keys[o.K])
+		return fmt.Sprintf("Delete(%q)", c19Keys[o.K])
 	case "filter":
 		return "Filter(keep " + o.P + ")"
 	case "map":
@@ -444,15 +447,15 @@ func c19Observe(ct *c19Cont, c any, r *c19Ref) (clause, detail string) {
 	for k := 0; k < 3; k++ {
 		_, in := r.data[k]
 		if got := ct.has(c, k); got != in {
-			return "has", fmt.Sprintf("Has(%s)=%v, reference %v", c19Keys[k], got, in)
+			return "has", fmt.Sprintf("Has(%q)=%v, reference %v", c19Keys[k], got, in)
 		}
 		if ct.get != nil {
 			v, ok := ct.get(c, k)
 			if ok != in || (in && v != r.data[k]) {
-				return "get", fmt.Sprintf("Get(%s)=(%d,%v), reference (%d,%v)", c19Keys[k], v, ok, r.data[k], in)
+				return "get", fmt.Sprintf("Get(%q)=(%d,%v), reference (%d,%v)", c19Keys[k], v, ok, r.data[k], in)
 			}
 			if gv := ct.getV(c, k); gv != r.data[k] {
-				return "get", fmt.Sprintf("GetValue(%s)=%d, reference %d", c19Keys[k], gv, r.data[k])
+				return "get", fmt.Sprintf("GetValue(%q)=%d, reference %d", c19Keys[k], gv, r.data[k])
 			}
 		}
 	}
@@ -615,7 +618,7 @@ func init() {
 	Register(&Prop{
 		ID:        "C19",
 		Technique: "explicit-state BFS over (private container state, reference dictionary) pairs driven through the real methods, plus exhaustive operation sequences up to a depth bound",
-		Rule: "operations Set/Update/Delete(present and absent)/Filter(6 predicates)/Map on keys {a,b,c} x values {1,2} for RuleASTNodes, ASTNodes, Constraints; Add and NewStringSet(every argument list of <=3 keys) for StringSet; after every step Len/Has/Get/GetValue/Each/EachSafe/Find/MarshalJSON are compared with an insertion-ordered dictionary; " +
+		Rule: "operations Set/Update/Delete(present and absent)/Filter(6 predicates)/Map on three keys (one plain, two that need JSON escaping: quote+backslash+control, DEL+non-ASCII+U+2028) x values {1,2} for RuleASTNodes, ASTNodes, Constraints; Add and NewStringSet(every argument list of <=3 keys) for StringSet; after every step Len/Has/Get/GetValue/Each/EachSafe/Find/MarshalJSON are compared with an insertion-ordered dictionary; " +
 			"states = distinct (impl dump, reference) pairs, non-trivial = histories of length >= 2",
 		Shards: func(string) int { return 16 },
 		Bounds: func(tier string) map[string]any {
